@@ -48,28 +48,47 @@ Definition enc_extra (cf : cfg) (s : st) : tree :=
   | _ => L []
   end.
 
-(* observation of one operation: result code, connection obtained, external calls made, records in
-   use, the pool's own counters *)
-Definition obs_step (cf : cfg) (x : res Z) (s : st) : tree :=
+(* observation of one operation: result code, connection obtained, new fairy?, external calls made
+   (kind * 1000 + connection + 1 each), records in use, the pool's own counters *)
+Definition obs_step (cf : cfg) (nf0 : nat) (x : res Z) (s : st) : tree :=
   let '(code, got) := match x with Ok g => (0, g) | Raise e => (exn_code e, -1) end in
-  L [I code; I got; L (map (fun kc => L [I (fst kc); I (snd kc)]) (trace s)); I (Z.of_nat (inuse_count s));
+  let is_new := match x with Ok g => if (0 <=? g) || (g =? -2) then negb (Nat.eqb (nfairies s) nf0) else false | _ => false end in
+  L [I code; I got; of_bool is_new; L (map (fun kc => I (fst kc * 1000 + snd kc + 1)) (trace s)); I (Z.of_nat (inuse_count s));
      enc_extra cf s].
 
 Fixpoint run_obs (cf : cfg) (ops : list (op * Z)) (s : st) (acc : list tree) : list tree * st :=
   match ops with
   | [] => (rev acc, s)
-  | (o, dt) :: r => let (x, s1) := step cf o dt s in run_obs cf r s1 (obs_step cf x s1 :: acc)
+  | (o, dt) :: r => let (x, s1) := step cf o dt s in run_obs cf r s1 (obs_step cf (nfairies s) x s1 :: acc)
   end.
 
+(* records the pool keeps (idle or not) *)
+Definition stored (cf : cfg) (s : st) : list nat :=
+  match kind cf with
+  | KQueue => q s
+  | KNull => []
+  | KStatic => match static s with Some r => [r] | None => [] end
+  | KSingleton => match sg_rec s with Some r => [r] | None => [] end
+  | KAssertion => match as_conn s with Some r => [r] | None => [] end
+  end.
+Definition has_dbc (o : option nat) (c : nat) : bool := match o with Some d => Nat.eqb d c | None => false end.
+Definition conn_idle (cf : cfg) (s : st) (c : nat) : bool :=
+  existsb (fun r => negb (in_use s r) && has_dbc (r_dbc s r) c) (stored cf s).
+Definition conn_held (s : st) (c : nat) : bool :=
+  existsb (fun h => match h with Some f => has_dbc (f_dbc s f) c | None => false end) (holders s).
+Definition conns_where (p : nat -> bool) (s : st) : tree :=
+  L (map (fun c => I (Z.of_nat c)) (filter p (seq 0 (nconns s)))).
+
 (* input  L [cfg; L ops; L faults]
-   output L [L per-op observations; L close-call counts per DBAPI connection] *)
+   output L [L per-op observations; L close-call counts per DBAPI connection; idle; held; detached] *)
 Definition run_case (t : tree) : tree :=
   match t with
   | L [tc; L tops; tf] =>
       match dec_cfg tc, all_some (map dec_op tops), as_list_of as_Z tf with
       | Some cf, Some ops, Some fl =>
           let (out, s) := run_obs cf ops (init cf fl) [] in
-          L [L out; L (map (fun c => I (c_nclose s c)) (seq 0 (nconns s)))]
+          L [L out; L (map (fun c => I (c_nclose s c)) (seq 0 (nconns s)));
+             conns_where (conn_idle cf s) s; conns_where (conn_held s) s; conns_where (c_det s) s]
       | _, _, _ => bad_input
       end
   | _ => bad_input
